@@ -55,7 +55,7 @@ CHECKS = {
          "statistical bound has false-alarm probability < 1e-14 per cell", "DESIGN.md §4 C16"),
  "C17": ("exploration", "repeated-execution differential testing: in-process repeats, rayon pools of 1/3/16 threads and separate worker processes must agree on canonical results",
          "Seeded Louvain and the seeded generator must return identical canonical results across 5 repeated calls, three pool sizes and another process; non-randomised algorithms must agree up to 1e-9.",
-         "worker processes are long-lived; one recorded known finding (weighted Louvain on non-dyadic weights)", "DESIGN.md §4 C17"),
+         "worker processes are long-lived (one per harness thread), not one per case", "DESIGN.md §4 C17"),
  "C18": ("exploration", "PBT with validity predicates derived from the documented iteration (norm, sign, fixed-point residual bound) and metamorphic monotonicity in (max_iter, tolerance)",
          "Every Ok vector must be non-negative, unit-norm and move by at most the tolerance-derived bound under one more documented step x -> normalise(x + A^T x); Err must be PowerIterationFailedConvergence; Ok must persist under larger budgets.",
          "the residual bound is sound but loose (factor about 2 sqrt(n) ||M||)", "DESIGN.md §4 C18"),
